@@ -148,14 +148,29 @@ def oracle(impl, o):
                 return [rand_tree(d - 1) for _ in range(rng.randrange(0, 3))]
             return {rng.choice('abc'): rand_tree(d - 1) for _ in range(rng.randrange(0, 3))}
         args = [rand_tree() for _ in range(rng.randrange(0, 3))]
-        kwargs = {k: rand_tree() for k in rng.sample(['p', 'q', 'r'], rng.randrange(0, 3))}
+        # keyword names sometimes collide with the ones the nested partial binds ('z') and with call-time keywords
+        kwargs = {k: rand_tree() for k in rng.sample(['p', 'q', 'r', 'z'], rng.randrange(0, 4))}
+        call_args = [rng.randrange(100) for _ in range(rng.randrange(0, 2))]
+        call_kw = {k: rng.randrange(100) for k in rng.sample(['p', 'z', 'w'], rng.randrange(0, 3))}
         inner = None
-        if rng.random() < 0.5:
-            inner = of.partial(f, rng.randrange(100), z=rng.randrange(100)) if rng.random() < 0.5 \
-                else functools.partial(f, rng.randrange(100))
+        ref_inner = f           # the same nesting built from functools.partial is the reference for calls
+        c = rng.random()
+        if c < 0.6:
+            a0, z0 = rng.randrange(100), rng.randrange(100)
+            if c < 0.25:
+                inner, ref_inner = of.partial(f, a0, z=z0), functools.partial(f, a0, z=z0)
+            elif c < 0.45:
+                inner, ref_inner = functools.partial(f, a0, z=z0, p=z0 + 1), functools.partial(f, a0, z=z0, p=z0 + 1)
+            else:
+                inner, ref_inner = functools.partial(f, a0), functools.partial(f, a0)
             p = of.partial(inner, *args, **kwargs)
         else:
             p = of.partial(f, *args, **kwargs)
+        want0 = functools.partial(ref_inner, *args, **kwargs)(*call_args, **call_kw)
+        got0 = p(*call_args, **call_kw)
+        if got0 != want0:
+            fails.append({'key': 'partial-call-differs-from-functools', 'what': 'calling the partial differs from the same nesting of '
+                          'functools.partial', 'got': repr(got0)[:200], 'want': repr(want0)[:200]})
         for ns in ('', 'a', 'whatever'):
             leaves, spec = optree.tree_flatten(p, namespace=ns)
             want = optree.tree_leaves((tuple(args), kwargs))
@@ -171,8 +186,8 @@ def oracle(impl, o):
         else:
             margs = optree.tree_map(lambda x: x + 1, tuple(args))
             mkw = optree.tree_map(lambda x: x + 1, kwargs)
-            want_call = (inner if inner is not None else f)(*margs, **mkw)
-            if mapped() != want_call:
+            want_call = functools.partial(ref_inner, *margs, **mkw)(*call_args, **call_kw)
+            if mapped(*call_args, **call_kw) != want_call:
                 fails.append({'key': 'partial-call', 'what': 'the rebuilt partial does not call the same function with the mapped arguments',
-                              'got': repr(mapped())[:200], 'want': repr(want_call)[:200]})
+                              'got': repr(mapped(*call_args, **call_kw))[:200], 'want': repr(want_call)[:200]})
     return fails
